@@ -1066,6 +1066,32 @@ func conformantSig(evs []Ev, obs string) string {
 	return "cmds" + strconv.Itoa(len(seen)/5*5) + "/ch" + b(nch) + "/us" + b(nus/2)
 }
 
+// runBeyond: histories a correct server may also send but which the assumptions listed in
+// conf/C04.json exclude from `conformant`; the oracle compares the API with the literal
+// reading of the history (Spec/NetRef.v told_run) regardless of conformance.
+func runBeyond(c Case) Result {
+	_, nick, user, evs, ok := DecodeHistory(c)
+	if !ok {
+		return Result{Obs: "?bad-args", Sig: ""}
+	}
+	obs, oracle, ss := RunHistory(nick, user, evs)
+	defer ss.Stop()
+	if oracle != "" || obs == "PANIC" || obs == "WEDGED" || obs == "NOPONG" {
+		return Result{Obs: obs, Oracle: oracle, Sig: "beyond"}
+	}
+	g := GetterDump(ss.C)
+	obs += ";g=" + g
+	told, err := RefTold(c)
+	if err != nil {
+		return Result{Obs: obs, Oracle: "spec-unavailable: " + err.Error(), Sig: "beyond"}
+	}
+	parts := strings.SplitN(told, ";", 3)
+	if len(parts) != 3 {
+		return Result{Obs: obs, Oracle: "spec-unavailable: unexpected answer " + clip(told), Sig: "beyond"}
+	}
+	return Result{Obs: obs, Oracle: diffDumps(g, parts[2]), Sig: "beyond"}
+}
+
 func runConformant(c Case) Result {
 	_, nick, user, evs, ok := DecodeHistory(c)
 	if !ok {
@@ -1142,5 +1168,37 @@ func init() {
 		},
 		Gen: genConformant,
 		Run: runConformant,
+	})
+	Register(&Suite{
+		Name: "state.beyond",
+		Prop: []string{"C04"},
+		Fixed: func() []Case {
+			srv := func(cmd string, ps ...string) Ev { return Ev{HasSrc: true, Name: "irc.test", Cmd: cmd, Params: ps} }
+			usr := func(n, cmd string, ps ...string) Ev {
+				return Ev{HasSrc: true, Name: n, Ident: "~" + strings.ToLower(n[:1]), Host: "h.example", Cmd: cmd, Params: ps}
+			}
+			tagged := func(e Ev, acct string) Ev { e.HasAcct, e.Acct = true, acct; return e }
+			return []Case{
+				// A1: a user known from a plain NAMES line (no ident/host yet) joins another channel
+				EncodeHistory("feed", "me", "user", []Ev{
+					srv("001", "me", "Welcome"), usr("me", "JOIN", "#a"), srv("353", "me", "=", "#a", "me alice"),
+					usr("me", "JOIN", "#b"), srv("353", "me", "=", "#b", "me"), usr("alice", "JOIN", "#b"),
+				}),
+				// A2: extended-join shows "*" for a user we knew as logged in (no account-notify)
+				EncodeHistory("feed", "me", "user", []Ev{
+					srv("001", "me", "Welcome"), usr("me", "JOIN", "#a"), usr("me", "JOIN", "#b"),
+					usr("alice", "JOIN", "#a", "acct", "Alice"), usr("alice", "JOIN", "#b", "*", "Alice"),
+				}),
+				// A3: account-tag without extended-join on the JOIN of somebody new
+				EncodeHistory("feed", "me", "user", []Ev{
+					srv("001", "me", "Welcome"), usr("me", "JOIN", "#a"), tagged(usr("alice", "JOIN", "#a"), "acct"),
+				}),
+				// A4: an ISUPPORT token with an empty value
+				EncodeHistory("feed", "me", "user", []Ev{
+					srv("001", "me", "Welcome"), srv("005", "me", "SILENCE=", "NETWORK=Test", "are supported by this server"),
+				}),
+			}
+		},
+		Run: runBeyond,
 	})
 }
